@@ -18,7 +18,16 @@
 //! times) or `H<hex>`.  Nothing here decides pass/fail: lib/props/c14.py evaluates the oracle and the
 //! Lean model's predictions.
 //!
-//! usage: c14 gen <quick|thorough>
+//!   cga <layout> <spec>             real AST (compact dump) + real tokens + per-pc (name, line, span) of the root
+//!                                    instructions and of every block; layout o = as written, x0/x1/x2 = a newline
+//!                                    at every / every even / every odd token gap inside tags
+//!   cge <spec>                       the same for a standalone expression (parse_expr + compile_expr)
+//!
+//! Every output line is prefixed with `<seq>.<sub>\t` (global work item number): `gen <tier> <k> <n>`
+//! runs only the work items with `seq % n == k`, lib/props/c14.py runs the shards in parallel and
+//! merges them by that number.
+//!
+//! usage: c14 gen <quick|thorough> [<k> <n>]
 //!        c14 one <stream> <fields…>       replay of one case line (`one err <id> <class> <cfg> <v> <h> [show]`)
 use minijinja::machinery::{self, Instruction, Instructions, Span, WhitespaceConfig};
 use minijinja::syntax::SyntaxConfig;
@@ -99,6 +108,8 @@ fn span_str(s: &Span) -> String {
         s.start_line, s.start_col, s.start_offset, s.end_line, s.end_col, s.end_offset
     )
 }
+
+include!("c14_ast.inc");
 
 // ------------------------------------------------------------------------------------------------
 // description of one located error (and its minijinja cause chain)
@@ -296,6 +307,8 @@ fn runtime_cases() -> Vec<Case> {
     v.push(one("unknown_method", "", "a\n@@{{ s.bogus() }}"));
     v.push(one("unknown_method_map", "", "a\n@@{{ d.bogus(1) }}"));
     v.push(one("call_non_callable", "", "a\n@@{{ x() }}"));
+    v.push(one("callblock_unknown_ml", "", "a\n@@{% call bogus() %}\nbody {{ x }}\n\n{% endcall %}\nb"));
+    v.push(one("callblock_method_ml", "", "a\n@@{% call(u) s.bogus(1) %}\nbody\n{% set q = u %}\n{% endcall %}\nb"));
     v.push(one("filter_bad_arg", "", "a\n@@{{ s|int }}"));
     v.push(one("filter_too_many", "", "a\n@@{{ s|upper(1, 2) }}"));
     v.push(one("filter_missing_arg", "", "a\n@@{{ s|replace }}"));
@@ -373,7 +386,7 @@ fn runtime_cases() -> Vec<Case> {
     v.push(one("import_missing", "", "a\n@@{% import \"missing\" as m %}"));
     v.push(rt("from_import_missing_name", "", "main", "main", &[
         ("lib", "{% macro m(a) %}{{ a }}{% endmacro %}"),
-        ("main", "a\n@@{% from \"lib\" import nope %}{{ nope() }}"),
+        ("main", "a\n{% from \"lib\" import nope %}@@{{ nope() }}"),
     ]));
     v.push(rt("import_toplevel_err", "", "main", "lib", &[
         ("lib", "x\n@@{% set q = 1 + s %}"),
@@ -808,18 +821,25 @@ const ROW_SITES: &[(&str, &str, &str)] = &[
     ("filter_fails", "@@{{ x|boomf }}", ""),
     ("test_unknown", "@@{{ x is bogus }}", ""),
     ("test_fails", "@@{{ x is boomt }}", ""),
-    ("fn_loop_args", "@@{% for fa in lst %}{{ loop(1, 2) }}{% endfor %}", ""),
-    ("fn_loop_recurse", "@@{% for fa in lst %}{{ loop(fa) ~ \"\" }}{% endfor %}", ""),
+    ("fn_loop_args", "{% for fa in lst %}@@{{ loop(1, 2) }}{% endfor %}", ""),
+    ("fn_loop_recurse", "{% for fa in lst %}@@{{ loop(fa) ~ \"\" }}{% endfor %}", ""),
     ("fn_fails", "@@{{ boom() }}", ""),
     ("fn_unknown", "@@{{ bogus() }}", ""),
     ("fn_not_callable", "@@{{ x() }}", ""),
     ("method_unknown", "@@{{ s.bogus() }}", ""),
     ("callobject", "@@{{ lst[0]() }}", ""),
-    ("fastrecurse_nonrecursive", "@@{% for fa in lst %}{{ loop(fa) }}{% endfor %}", ""),
+    ("fastrecurse_nonrecursive", "{% for fa in lst %}@@{{ loop(fa) }}{% endfor %}", ""),
     ("include_nonstring", "@@{% include 42 %}", ""),
     ("include_missing", "@@{% include \"nosuchtemplate\" %}", ""),
     ("import_nonstring", "@@{% import 42 as zz %}", ""),
     ("from_import_missing", "@@{% from \"nosuchtemplate\" import zz %}", ""),
+];
+
+/// API entry points other than `render`: the site inside a block that only `State::render_block`
+/// reaches (flag B) / inside a macro that only `State::call_macro` reaches (flag M)
+const ROW_ENTRY_CONTEXTS: &[(&str, &str, &str)] = &[
+    ("entryblock", "PRE\n{% if false %}{% block b %}\nabc\n^^STMT\n{% endblock %}{% endif %}\nend", "B"),
+    ("entrymacro", "PRE\n{% macro m() %}\n a\n^^STMT\n{% endmacro %}\nend", "M"),
 ];
 
 /// the contexts the row sites are planted in
@@ -855,6 +875,35 @@ fn row_cases(tier: &str) -> Vec<Case> {
                 main: main.to_string(),
                 shifted: shifted.to_string(),
                 flags: flags.to_string(),
+                class: "runtime",
+            });
+        }
+        // entry points render_block / call_macro
+        for (ei, (ctx, wrapper, eflag)) in ROW_ENTRY_CONTEXTS.iter().enumerate() {
+            if tier != "thorough" && (si + ei) % 2 != 0 {
+                continue;
+            }
+            let text = wrapper.replace("PRE", SP_PRELUDE).replace("STMT", stmt);
+            out.push(Case {
+                id: format!("row_{}__{}", site, ctx),
+                templates: vec![
+                    ("splib".to_string(), "{% macro spm() %}m{% endmacro %}".to_string()),
+                    ("main".to_string(), text),
+                ],
+                main: "main".to_string(),
+                shifted: "main".to_string(),
+                flags: format!("{}{}", flags, eflag),
+                class: "runtime",
+            });
+        }
+        // entry point Environment::compile_expression + Expression::eval
+        if let Some(x) = stmt.strip_prefix("@@{{ ").and_then(|x| x.strip_suffix(" }}")) {
+            out.push(Case {
+                id: format!("row_{}__expression", site),
+                templates: vec![("<expression>".to_string(), format!("@@{}", x))],
+                main: "<expression>".to_string(),
+                shifted: "<expression>".to_string(),
+                flags: format!("e{}", flags),
                 class: "runtime",
             });
         }
@@ -952,7 +1001,9 @@ const INNER_SITES: &[(&str, &str, &str)] = &[
     ("if_strict", "s", "{%§ @@if§ missing$$§ %}{% endif %}"),
     ("with_expr", "", "{%§ with§ q§ =§ @@1§ +§ s$$§ %}{% endwith %}"),
     ("filter_block", "", "{%§ @@filter§ bogus$$§ %}zz{% endfilter %}"),
-    ("call_block", "", "{%§ @@call§ bogus§ (§ )§ %}zz{% endcall %}$$"),
+    ("call_block", "", "{%§ @@call§ bogus§ (§ )$$§ %}zz{% endcall %}"),
+    ("call_block_ml", "", "{%§ @@call§ bogus§ (§ )$$§ %}z\nz{{ x }}\n{% endcall %}"),
+    ("call_block_args", "", "{%§ @@call§ (§ u§ )§ bogus§ (§ 1§ ,§ k§ =§ x§ )$$§ %}\nz{{ u }}\n{% endcall %}"),
     ("block_required", "", "{%§ @@block§ rq2§ required$$§ %}{% endblock %}"),
 ];
 
@@ -1199,6 +1250,9 @@ fn strip_markers(text: &str) -> (String, Option<usize>, usize, Option<usize>) {
     (plain, pv, ph.expect("case needs an @@ marker"), pe)
 }
 
+/// vertical variants from this index on are the layouts of `explode` (every / even / odd token gaps)
+const EXPLODED_FIRST: usize = 7;
+
 /// whitespace inserted INSIDE a tag (inner cases, flag i): (repetitions, unit)
 const INNER_SHIFTS: &[(usize, &str)] = &[(0, ""), (1, "\n"), (2, "\n  "), (7, "\r\n"), (3, " "), (300, "\n"), (2, "\t\n")];
 
@@ -1224,10 +1278,70 @@ fn build_case(c: &Case, vi: usize, hi: usize) -> Built {
         // an unclosed block extends to the end of the template
         let tag_end = if c.id.starts_with("syn_missing_") { tail.len() } else { tag_end };
         let tag_end = cend.map(|e| e - ph).unwrap_or(tag_end);
-        if inner {
+        if inner && vi < EXPLODED_FIRST {
             pe_out = (ph + tag_end) as i64;
         }
         mext = tail[..tag_end].bytes().filter(|x| *x == b'\n').count();
+        if vi >= EXPLODED_FIRST {
+            // a newline at every (even / odd) token gap inside the tags of the whole template: the failing
+            // operation lies between the first token after the opening delimiter that follows the
+            // marker and the last token before the end of the marked construct
+            let is_expr = c.flags.contains('e');
+            let toks_of = |t: &str| tokens_of(t, is_expr);
+            if let Some((text2, map)) = explode_with(&plain, vi - EXPLODED_FIRST, &[ph, ph + tag_end], is_expr) {
+                let line_at = |off: usize| 1 + text2[..off].bytes().filter(|x| *x == b'\n').count();
+                let (mut a, b) = (map[0], map[1]);
+                if !c.flags.contains('i') {
+                    // (only the inner cases bracket the failing operation itself; elsewhere a marker inside a
+                    // tag is just the horizontal insertion point: the operation starts with the tag's first token)
+                    if let Some(toks) = toks_of(&text2) {
+                        let mut open = 0usize;
+                        let mut inside = is_expr;
+                        for (k, s) in &toks {
+                            if s.start_offset as usize >= a {
+                                break;
+                            }
+                            match k.as_str() {
+                                "vs" | "bs" => {
+                                    inside = true;
+                                    open = s.start_offset as usize;
+                                }
+                                "ve" | "be" => inside = false,
+                                _ => {}
+                            }
+                        }
+                        if inside {
+                            a = open;
+                        }
+                    }
+                }
+                let mut lo = line_at(a);
+                let mut hi = line_at(b);
+                if let Some(toks) = toks_of(&text2) {
+                    let inner: Vec<&(String, Span)> = toks
+                        .iter()
+                        .filter(|(k, s)| {
+                            s.start_offset as usize >= a && s.end_offset as usize <= b && !matches!(k.as_str(), "vs" | "bs" | "ve" | "be" | "data")
+                        })
+                        .collect();
+                    if let (Some(f), Some(l)) = (inner.first(), inner.last()) {
+                        lo = f.1.start_line as usize;
+                        hi = l.1.end_line as usize;
+                    }
+                }
+                ph = a;
+                pv = 0;
+                vline = 1;
+                mline = lo;
+                mext = hi.saturating_sub(lo);
+                sources.push((name.clone(), Src::lit(&text2)));
+                continue;
+            }
+            sources.push((name.clone(), Src::lit(&plain)));
+            pv = 0;
+            vline = 1;
+            continue;
+        }
         let base_lines = 1 + plain.bytes().filter(|x| *x == b'\n').count();
         let (vn, unit) = if inner { INNER_SHIFTS[vi] } else { V_SHIFTS[vi] };
         let reps = if vn == usize::MAX { 65535 - base_lines } else { vn };
@@ -1278,7 +1392,12 @@ fn build_case(c: &Case, vi: usize, hi: usize) -> Built {
 ///   r recursion limit 1: every instruction that opens a frame (with, for, import, macro call,
 ///     include, block) fails right there
 ///   w render_captured_to (a writer) instead of render     l every template comes from a loader (lazily compiled)
-const CONFIGS: &[&str] = &["d", "p", "n", "x", "a", "k", "t", "c", "s", "m", "h", "r", "w", "l"];
+///   API entry points (the main template reaches the engine through …):
+///   1 Environment::render_str (name `<string>`)      2 template_from_named_str
+///   3 add_template_owned                             4 render_named_str
+///   5 template_from_str (name `<string>`)
+const CONFIGS: &[&str] = &["d", "p", "n", "x", "a", "k", "t", "c", "s", "m", "h", "r", "w", "l", "1", "2", "3", "4", "5"];
+const ENTRY_CFGS: &[&str] = &["1", "2", "3", "4", "5"];
 
 fn custom_syntax_case(c: &Case) -> Case {
     let mut c2 = c.clone();
@@ -1304,7 +1423,12 @@ fn run_case(c0: &Case, cfg: &str, vi: usize, hi: usize) -> String {
     };
     let b = build_case(c, vi, hi);
     let texts: Vec<(String, String)> = b.sources.iter().map(|(n, s)| (n.clone(), s.build())).collect();
-    let lookup = |name: &str| texts.iter().find(|(n, _)| n == name).map(|(_, s)| s.clone());
+    // render_str / template_from_str: the main template is called `<string>`
+    let anon = matches!(cfg, "1" | "5");
+    let lookup = |name: &str| {
+        let name = if anon && name == "<string>" { c.main.as_str() } else { name };
+        texts.iter().find(|(n, _)| n == name).map(|(_, s)| s.clone())
+    };
     let res = guarded(|| {
         let mut env = Environment::new();
         env.set_debug(cfg != "x");
@@ -1426,15 +1550,37 @@ fn run_case(c0: &Case, cfg: &str, vi: usize, hi: usize) -> String {
                 },
             };
         }
-        let got = if cfg == "l" {
+        if matches!(cfg, "1" | "4") {
+            let rv = if cfg == "1" { env.render_str(&main_text, ctx) } else { env.render_named_str(&c.main, &main_text, ctx) };
+            return match rv {
+                // (these entry points do not tell loading from rendering apart)
+                Err(e) => format!("{}|{}", if e.kind() == ErrorKind::SyntaxError { "load" } else { "render" }, describe_chain(&e, &lookup)),
+                Ok(_) => "noerror|".to_string(),
+            };
+        }
+        let got = if matches!(cfg, "2" | "5") {
+            Ok(())
+        } else if cfg == "l" {
             env.get_template(&c.main).map(|_| ())
+        } else if cfg == "3" {
+            env.add_template_owned(c.main.clone(), main_text.clone())
         } else {
             env.add_template(&c.main, &main_text)
         };
+        let env = &env;
         match got {
             Err(e) => format!("load|{}", describe_chain(&e, &lookup)),
             Ok(()) => {
-                let t = env.get_template(&c.main).unwrap();
+                let direct = match cfg {
+                    "2" => Some(env.template_from_named_str(&c.main, &main_text)),
+                    "5" => Some(env.template_from_str(&main_text)),
+                    _ => None,
+                };
+                let t = match direct {
+                    Some(Err(e)) => return format!("load|{}", describe_chain(&e, &lookup)),
+                    Some(Ok(t)) => t,
+                    None => env.get_template(&c.main).unwrap(),
+                };
                 let rv = if c.flags.contains('B') {
                     t.render_captured(ctx).and_then(|mut cap| cap.with_state_mut(|st| st.render_block("b").map(|_| ())))
                 } else if c.flags.contains('M') {
@@ -1458,10 +1604,19 @@ fn run_case(c0: &Case, cfg: &str, vi: usize, hi: usize) -> String {
         Ok(s) => s,
         Err(msg) => format!("panic|{}", hex(msg.as_bytes())),
     };
-    let specs: Vec<String> = b.sources.iter().map(|(n, s)| format!("{}={}", hex(n.as_bytes()), s.spec())).collect();
+    let mut specs: Vec<String> = b.sources.iter().map(|(n, s)| format!("{}={}", hex(n.as_bytes()), s.spec())).collect();
+    let mut shifted_name = c.shifted.clone();
+    if anon {
+        if let Some((_, s)) = b.sources.iter().find(|(n, _)| *n == c.main) {
+            specs.push(format!("{}={}", hex(b"<string>"), s.spec()));
+        }
+        if c.shifted == c.main {
+            shifted_name = "<string>".to_string();
+        }
+    }
     format!(
         "P{},{},{},{},{},{},{},{},{},{},{}|{}|{}",
-        b.pv, b.ph, b.vline, b.n, b.vbytes, b.hbytes, hex(c.shifted.as_bytes()), b.mline, b.mext,
+        b.pv, b.ph, b.vline, b.n, b.vbytes, b.hbytes, hex(shifted_name.as_bytes()), b.mline, b.mext,
         FREE_MARKER.contains(&c.id.as_str()) as u8, b.pe, body, specs.join(";")
     )
 }
@@ -1898,8 +2053,36 @@ fn variants(c: &Case, idx: usize, tier: &str) -> Vec<(&'static str, usize, usize
     const PLANT_CFGS: &[&str] = &["p", "n", "x", "k", "c"];
     let mut out = Vec::new();
     let is_print = c.id.starts_with("print_");
+    // the layouts with a newline at every / every even / every odd token gap inside the tags: every
+    // failing construct that is not a syntax error, default configuration (the rule checked is that the
+    // report lies on the lines of the failing operation's own tokens)
+    if c.class == "runtime" && !c.flags.contains('f') && !FREE_MARKER.contains(&c.id.as_str()) && !c.id.starts_with("deg_") {
+        let generated = ["sl_", "row_", "inn_", "print_", "deg_"].iter().any(|p| c.id.starts_with(p));
+        let only = SPANLESS_SITES.iter().find(|s| c.id.starts_with(&format!("sl_{}_", s.0))).map(|s| s.3).unwrap_or("");
+        let xcfg: &'static str = if c.id.starts_with("sl_") && !only.is_empty() { only } else { "d" };
+        for layout in 0..3 {
+            if layout == 0 || tier == "thorough" || !generated || idx % 2 == layout % 2 {
+                out.push((xcfg, EXPLODED_FIRST + layout, 0));
+            }
+        }
+    }
     for cfg in CONFIGS {
         let cfg: &'static str = cfg;
+        if ENTRY_CFGS.contains(&cfg) {
+            // entry points: fixed-site cases and the `top` context of the generated row sites; the
+            // string-rendering entry points have no Template object to call render_block etc. on
+            let fixed = c.class != "planted" && !c.flags.contains('i') && !c.flags.contains('e') && !c.flags.contains('L')
+                && !c.flags.contains('f') && !c.id.starts_with("sl_") && (!c.id.contains("__") || c.id.ends_with("__top"));
+            let needs_template = c.flags.contains('B') || c.flags.contains('M') || c.flags.contains('C');
+            if !fixed || (needs_template && matches!(cfg, "1" | "4")) || c.id.starts_with("entry_") && matches!(cfg, "1" | "4") {
+                continue;
+            }
+            let grid: &[(usize, usize)] = if c.id.contains("__") || tier != "thorough" { &[(0, 0), (1, 0)] } else { &[(0, 0), (1, 0), (3, 2), (5, 1)] };
+            for (vi, hi) in grid {
+                out.push((cfg, *vi, *hi));
+            }
+            continue;
+        }
         if c.class == "planted" {
             if cfg != "d" && PLANT_CFGS[idx % PLANT_CFGS.len()] != cfg {
                 continue;
@@ -1968,15 +2151,81 @@ fn variants(c: &Case, idx: usize, tier: &str) -> Vec<(&'static str, usize, usize
     out
 }
 
-fn gen(tier: &str) {
+/// the sources of the `cga` stream: every valid template of the fixed-site, span-less, row, inner and
+/// degenerate cases and the base templates
+fn cga_templates(tier: &str) -> Vec<String> {
+    let mut v: Vec<String> = BASES.iter().map(|s| s.to_string()).collect();
+    let strip = |t: &str| t.replace("@@", "").replace("^^", "").replace("$$", "").replace('§', " ");
+    for c in runtime_cases().into_iter().chain(spanless_cases(tier)).chain(row_cases(tier)).chain(degenerate_cases()) {
+        if c.class == "runtime" && !c.flags.contains('e') {
+            for (_, t) in &c.templates {
+                v.push(strip(t));
+            }
+        }
+    }
+    for (_, _, text) in INNER_SITES {
+        v.push(format!("{{% block b %}}{{% for fa in lst %}}{}{{% endfor %}}{{% endblock %}}", strip(text)));
+    }
+    // the excluded region of `instr_line_in_construct`: a constant-folded comparison whose previous token
+    // is on an earlier line, first operand of a short-circuit operator
+    v.push("{{ foo(\n 1 == 1 and x) }}".to_string());
+    v.push("{{ foo(\n 1 < 2 < 3 or x, 1 if\n 2 in [2] else 3) }}".to_string());
+    v.sort();
+    v.dedup();
+    v
+}
+
+fn cge_sources() -> Vec<String> {
+    let mut v: Vec<String> = Vec::new();
+    for (_, stmt, _) in ROW_SITES {
+        if let Some(x) = stmt.strip_prefix("@@{{ ").and_then(|x| x.strip_suffix(" }}")) {
+            v.push(x.to_string());
+        }
+    }
+    for (_, a, b) in EXPR_KINDS {
+        v.push(a.to_string());
+        v.push(b.to_string());
+    }
+    for x in ["1 in 2 == true", "a if b else c if d else e", "x|f(1, k=2, *y, **z)|g is h(1)", "[1, (2, 3), {'a': b}][0].c(d)[1:2:3]",
+              "not a and b or not c in d", "-x ** 2 ~ 'q'", "1 == 1 and x", "loop(x)", "super()", "self.b()"] {
+        v.push(x.to_string());
+    }
+    v.sort();
+    v.dedup();
+    v
+}
+
+struct Shard {
+    k: usize,
+    n: usize,
+    seq: usize,
+}
+
+impl Shard {
+    /// the number of the next work item if it belongs to this shard
+    fn mine(&mut self) -> Option<usize> {
+        let s = self.seq;
+        self.seq += 1;
+        if s % self.n == self.k {
+            Some(s)
+        } else {
+            None
+        }
+    }
+}
+
+fn gen(tier: &str, k: usize, n: usize) {
     let stdout = std::io::stdout();
     let mut out = std::io::BufWriter::new(stdout.lock());
     let mut rng = Rng::new(seed_from_env());
+    let mut sh = Shard { k, n, seq: 0 };
     // err stream
     let cases = all_cases(tier, &mut rng);
     for (idx, c) in cases.iter().enumerate() {
         for (cfg, vi, hi) in variants(c, idx, tier) {
-            writeln!(out, "err {} {} {} {} {}\t{}", c.id, c.class, cfg, vi, hi, run_case(c, cfg, vi, hi)).unwrap();
+            if let Some(q) = sh.mine() {
+                writeln!(out, "{}.0\terr {} {} {} {} {}\t{}", q, c.id, c.class, cfg, vi, hi, run_case(c, cfg, vi, hi)).unwrap();
+            }
         }
     }
     // lex stream: bases, all failing templates (unshifted and lightly shifted), random soups
@@ -2008,32 +2257,84 @@ fn gen(tier: &str) {
         lex_srcs.push(Src::lit(&random_lex_source(&mut rng)));
     }
     for (i, s) in lex_srcs.iter().enumerate() {
+        let q = match sh.mine() {
+            Some(q) => q,
+            None => continue,
+        };
         let text = s.build();
         let cfgs: &[&str] = if text.len() > 10000 { &["default"] } else { &["default", "trim", "linestmt", "custom"] };
         let cfg = if text.len() > 10000 { "default" } else { cfgs[i % cfgs.len()] };
-        writeln!(out, "lex {} {}\t{}", cfg, s.spec(), run_lex(cfg, &text)).unwrap();
+        writeln!(out, "{}.0\tlex {} {}\t{}", q, cfg, s.spec(), run_lex(cfg, &text)).unwrap();
         if text.len() <= 10000 && cfg != "default" {
-            writeln!(out, "lex default {}\t{}", s.spec(), run_lex("default", &text)).unwrap();
+            writeln!(out, "{}.1\tlex default {}\t{}", q, s.spec(), run_lex("default", &text)).unwrap();
         }
     }
     // ast + ins streams
     for (tid, src) in ins_templates().iter().enumerate() {
-        writeln!(out, "ast {}\t{}", Src::lit(src).spec(), run_ast(src)).unwrap();
+        let q = match sh.mine() {
+            Some(q) => q,
+            None => continue,
+        };
+        writeln!(out, "{}.0\tast {}\t{}", q, Src::lit(src).spec(), run_ast(src)).unwrap();
         // a vertically shifted copy: lines in the tables move, the structure stays
         let mut s = Src::default();
         s.push_rep("é\n", 3);
         s.push_lit(src);
-        writeln!(out, "ast {}\t{}", s.spec(), run_ast(&s.build())).unwrap();
-        run_ins(&mut out, tid, src);
-        writeln!(out, "stm {}\t{}", Src::lit(src).spec(), run_stm(src)).unwrap();
+        writeln!(out, "{}.1\tast {}\t{}", q, s.spec(), run_ast(&s.build())).unwrap();
+        writeln!(out, "{}.2\tstm {}\t{}", q, Src::lit(src).spec(), run_stm(src)).unwrap();
+        let mut buf: Vec<u8> = Vec::new();
+        run_ins(&mut buf, tid, src);
+        for (j, l) in String::from_utf8(buf).unwrap().lines().enumerate() {
+            writeln!(out, "{}.{}\t{}", q, 3 + j, l).unwrap();
+        }
+    }
+    // cga stream: AST dump + per-pc tables of the whole program, as written and in the three
+    // "newline at the token gaps" layouts
+    for src in cga_templates(tier) {
+        for layout in 0..4usize {
+            let q = match sh.mine() {
+                Some(q) => q,
+                None => continue,
+            };
+            let (tag, text) = if layout == 0 {
+                ("o".to_string(), src.clone())
+            } else {
+                match explode_with(&src, layout - 1, &[], false) {
+                    Some((t, _)) => (format!("x{}", layout - 1), t),
+                    None => continue,
+                }
+            };
+            writeln!(out, "{}.0\tcga {} {}\t{}", q, tag, Src::lit(&text).spec(), run_cga(&text)).unwrap();
+        }
+    }
+    for src in cge_sources() {
+        for layout in 0..2usize {
+            let q = match sh.mine() {
+                Some(q) => q,
+                None => continue,
+            };
+            let text = if layout == 0 {
+                src.clone()
+            } else {
+                match explode_with(&src, 0, &[], true) {
+                    Some((t, _)) => t,
+                    None => continue,
+                }
+            };
+            writeln!(out, "{}.0\tcge {}\t{}", q, Src::lit(&text).spec(), run_cge(&text)).unwrap();
+        }
     }
     // cg stream
     for ops in cg_cases(tier, &mut rng) {
-        writeln!(out, "cg {}\t{}", if ops.is_empty() { "-" } else { &ops }, run_cg(&ops)).unwrap();
+        if let Some(q) = sh.mine() {
+            writeln!(out, "{}.0\tcg {}\t{}", q, if ops.is_empty() { "-" } else { &ops }, run_cg(&ops)).unwrap();
+        }
     }
     // tbl stream
     for ops in tbl_cases(tier, &mut rng) {
-        writeln!(out, "tbl {}\t{}", if ops.is_empty() { "-" } else { &ops }, run_tbl(&ops)).unwrap();
+        if let Some(q) = sh.mine() {
+            writeln!(out, "{}.0\ttbl {}\t{}", q, if ops.is_empty() { "-" } else { &ops }, run_tbl(&ops)).unwrap();
+        }
     }
 }
 
@@ -2041,7 +2342,11 @@ fn main() {
     quiet_panics();
     let args: Vec<String> = std::env::args().collect();
     match args.get(1).map(|s| s.as_str()) {
-        Some("gen") => gen(args.get(2).map(|s| s.as_str()).unwrap_or("quick")),
+        Some("gen") => gen(
+            args.get(2).map(|s| s.as_str()).unwrap_or("quick"),
+            args.get(3).and_then(|s| s.parse().ok()).unwrap_or(0),
+            args.get(4).and_then(|s| s.parse().ok()).unwrap_or(1),
+        ),
         Some("one") => {
             let stream = args[2].as_str();
             match stream {
@@ -2067,6 +2372,8 @@ fn main() {
                 "tbl" => println!("tbl {}\t{}", args[3], run_tbl(if args[3] == "-" { "" } else { &args[3] })),
                 "cg" => println!("cg {}\t{}", args[3], run_cg(if args[3] == "-" { "" } else { &args[3] })),
                 "stm" => println!("stm {}\t{}", args[3], run_stm(&Src::parse(&args[3]).build())),
+                "cga" => println!("cga {} {}\t{}", args[3], args[4], run_cga(&Src::parse(&args[4]).build())),
+                "cge" => println!("cge {}\t{}", args[3], run_cge(&Src::parse(&args[3]).build())),
                 "ins" => {
                     let stdout = std::io::stdout();
                     let mut out = stdout.lock();
@@ -2076,7 +2383,7 @@ fn main() {
             }
         }
         _ => {
-            eprintln!("usage: c14 gen <quick|thorough> | c14 one <stream> <fields…>");
+            eprintln!("usage: c14 gen <quick|thorough> [<shard> <shards>] | c14 one <stream> <fields…>");
             std::process::exit(2);
         }
     }
